@@ -479,11 +479,27 @@ example : dateOk "2025-1-1".toList = true := by decide +kernel
 example : dateOk "99999-01-01".toList = false := by decide +kernel
 example : dateOk "2025-01-01-".toList = false := by decide +kernel
 
-/-- an accepted date has three `-`-separated numeric parts with month 1–12 and day 1–31 -/
+example : dateOk "2024-02-29".toList = true := by decide +kernel
+example : dateOk "2023-02-29".toList = false := by decide +kernel
+example : dateOk "2100-02-29".toList = false := by decide +kernel
+example : dateOk "2000-02-29".toList = true := by decide +kernel
+example : dateOk "2025-04-31".toList = false := by decide +kernel
+example : dateOk "2025-02-30".toList = false := by decide +kernel
+
+theorem daysInMonth_le (y m : Nat) : 28 ≤ daysInMonth y m ∧ daysInMonth y m ≤ 31 := by
+  unfold daysInMonth
+  split
+  · omega
+  · split
+    · split <;> omega
+    · omega
+
+/-- an accepted date has three `-`-separated numeric parts naming a day that exists: month 1–12
+    and day 1 … the length of that month in that year (29 February only in leap years) -/
 theorem dateOk_shape (s : List Char) (h : dateOk s = true) :
     ∃ y m d yv mv dv, splitDash s [] = [y, m, d] ∧ parseUnsigned 65535 y = some yv ∧
       parseUnsigned 255 m = some mv ∧ parseUnsigned 255 d = some dv ∧
-      1 ≤ mv ∧ mv ≤ 12 ∧ 1 ≤ dv ∧ dv ≤ 31 := by
+      1 ≤ mv ∧ mv ≤ 12 ∧ 1 ≤ dv ∧ dv ≤ daysInMonth yv mv := by
   unfold dateOk at h
   split at h
   · rename_i y m d hs
